@@ -10,6 +10,7 @@ import (
 func init() {
 	replayers["(*Raft).persistVote"] = replayPersistVote
 	replayers["(*commitment).recalculate"] = replayRecalculate
+	replayers["(*Raft).verifyLeader"] = replayVerifyLeader
 }
 
 func mInt(m map[string]string, k string, def int64) int64 {
@@ -190,5 +191,41 @@ func TestGovcReplay(t *testing.T) {
 	}
 }
 `, strings.Join(vals, ", "), mUint(m, "commit", 0), mUint(m, "start", 0))
+	return "TestGovcReplay", test, true
+}
+
+// verifyLeader: a configuration with a non-voter that has a replication routine.
+func replayVerifyLeader(m map[string]string, o *Oblig) (string, string, bool) {
+	test := `package raft
+
+import "testing"
+
+func TestGovcReplay(t *testing.T) {
+	latest := Configuration{Servers: []Server{
+		{Suffrage: Voter, ID: "me", Address: "me"},
+		{Suffrage: Voter, ID: "b", Address: "b"},
+		{Suffrage: Voter, ID: "c", Address: "c"},
+		{Suffrage: Nonvoter, ID: "d", Address: "d"},
+	}}
+	r := &Raft{}
+	r.configurations.latest = latest
+	r.verifyCh = make(chan *verifyFuture, 8)
+	r.leaderState.notify = map[*verifyFuture]struct{}{}
+	r.leaderState.replState = map[ServerID]*followerReplication{}
+	for _, id := range []ServerID{"b", "c", "d"} {
+		r.leaderState.replState[id] = &followerReplication{notify: map[*verifyFuture]struct{}{}, notifyCh: make(chan struct{}, 1)}
+	}
+	v := &verifyFuture{}
+	v.init()
+	r.verifyLeader(v)
+	for id, repl := range r.leaderState.replState {
+		if _, registered := repl.notify[v]; registered && !hasVote(latest, id) {
+			// show the consequence: only the non-voter acknowledges
+			repl.notifyAll(true)
+			t.Fatalf("registered_only_with_voters violated: the verify request is registered with non-voter %q; after only that non-voter acknowledged: votes=%d quorumSize=%d (quorum reached: %v)", id, v.votes, v.quorumSize, int(v.votes) >= v.quorumSize)
+		}
+	}
+}
+`
 	return "TestGovcReplay", test, true
 }
